@@ -233,6 +233,9 @@ def build(spec):
                 if all(v is not None for v in ln['ends'].values()):
                     raise
                 notes['create_null_end:AttributeError'] = notes.get('create_null_end:AttributeError', 0) + 1
+            except Exception as e:  # noqa   (not judged here: C10)
+                notes['create:' + type(e).__name__] = notes.get('create:' + type(e).__name__, 0) + 1
+                continue
         inst.path = pywbem.CIMInstanceName(ln['cls'], keybindings=keyb, namespace=ln['ns'])
         try:
             conn.add_cimobjects(inst, namespace=ln['ns'])
@@ -266,7 +269,7 @@ def build(spec):
         try:
             conn.DeleteInstance(node_path(spec['nodes'][i]))
             notes['deleted'] = notes.get('deleted', 0) + 1
-        except pywbem.Error:
+        except Exception:  # noqa
             pass
     return conn, notes
 
@@ -1236,7 +1239,7 @@ def apply_step(conn, spec, state, st, count):
                 conn.DeleteClass(st[1], namespace=ns)
             state.assocs[:] = [b for b in state.assocs if b[0] != st[1]]
             count('history:del_class')
-    except pywbem.Error as e:
+    except Exception as e:  # noqa   (the step itself is not judged here: C10/C11/C12; a corrupted store shows in the queries)
         count('history:step_failed:%s:%s' % (kind, type(e).__name__))
 
 
@@ -1311,7 +1314,7 @@ def _work(spec):
 
 def run(run):
     rng = run.rng
-    n = 150 if run.thorough else 60
+    n = 150 if run.thorough else 50
     run.rule = ('seeded random repositories: 5 node classes in 2 hierarchies, 1-4 random binary/ternary association '
                 'classes (random roles incl. recased, REF classes incl. recased, optional non-key ends) with 0-2 '
                 'subclasses each, 1-3 namespaces, up to 16 (thorough 30) nodes with colliding ids, up to 20 (40) '
@@ -1344,7 +1347,7 @@ def run(run):
     # histories: queries interleaved with repository growth on one connection (own generator so that the
     # repositories above stay the same for a given seed)
     hrng = random.Random(run.seed * 7919 + 13)
-    for i in range(100 if run.thorough else 32):
+    for i in range(100 if run.thorough else 28):
         s = gen_history_spec(hrng, False)
         s['thorough'] = False
         specs.append(s)
